@@ -10,6 +10,15 @@ var extras = map[string]ruleFn{
 	// "succeeds with every required injection point populated by its target": by-name edges are looked up under the
 	// resolved tag value; the processors that populate are already active when a later post-processor is created
 	"C02": func(c *core.Ctx, r *core.Report) {
+		propsStageRules(c, r, "C02.R11")
+		if l := findLifecycle(c, r, "C02.R12"); l != nil {
+			populateRules(c, r, l, func(row string) string {
+				if row == "from-accessor" || row == "error" {
+					return "C02.R12"
+				}
+				return ""
+			})
+		}
 		if bs, why := findBootstrap(c); bs != nil {
 			bsTable(c, r, bs, "C02.R9", map[string]bool{"chain-active": true})
 		} else {
@@ -31,60 +40,147 @@ var extras = map[string]ruleFn{
 	// "every dependency ... has already completed its own initialization": candidates found by the processors reach
 	// the populator; post-processors are populated by the processors ordered before them
 	"C05": func(c *core.Ctx, r *core.Report) {
+		// every tagged field becomes an injection point that is populated before initialization; configuration is loaded before anything is created
+		fieldScanRules(c, r, "C05.R9")
+		propertyStoreRules(c, r, "C05.R9")
+		runPhaseRules(c, r, "C05.R9")
+		propsStageRules(c, r, "C05.R8")
 		furtherRules(c, r, "C05.R8", "narrowed-once", "foreign-untouched")
 		if bs, _ := findBootstrap(c); bs != nil {
 			bsTable(c, r, bs, "C05.R8", map[string]bool{"chain-active": true})
 		}
 	},
 	// "leaves the field untouched when it is optional": nothing but Inject / SetValue / the logger processor writes fields
-	"C07": func(c *core.Ctx, r *core.Report) { writerRules(c, r, "C07.R7") },
+	"C07": func(c *core.Ctx, r *core.Report) {
+		writerRules(c, r, "C07.R7")
+		isSelfTable(c, r, "C07.R8")
+		fieldScanRules(c, r, "C07.R9")
+		propsStageRules(c, r, "C07.R9")
+	},
 	// "required=false points that cannot be satisfied leave their field at its zero value"
 	"C09": func(c *core.Ctx, r *core.Report) {
+		tagRules(c, r, "C09.E3", "required")
+		fieldScanRules(c, r, "C09.E4")
+		propsStageRules(c, r, "C09.E4")
 		furtherRules(c, r, "C09.E3", "optional-cleared", "required-error")
 		writerRules(c, r, "C09.E3")
 	},
 	// "only components whose declared qualifier is in the requested set": qualifier texts are compared exactly
 	// "a unique component without a custom name wins": which components count as custom-named
 	"C08": func(c *core.Ctx, r *core.Report) {
+		// "a unique Primary always wins": the Primary test answers per type; user post-processors meet the built-in stages at their documented positions
+		typeImplementRules(c, r, "C08.R7")
+		processorOrderRules(c, r, "C08.R8")
 		tagRules(c, r, "C08.R5", "has-values", "lookup")
 		aliasTable(c, r, "C08.R6")
 	},
 	// the ordering helper is a function of the multiset of participants (not of their enumeration order)
-	"C10": func(c *core.Ctx, r *core.Report) { sorterRules(c, r, "C10.R6") },
+	"C10": func(c *core.Ctx, r *core.Report) {
+		sorterRules(c, r, "C10.R6")
+		registerRules(c, r, "C10.R7")
+	},
 	// "receives ... the tag's value and arguments"; every processor sees every property
 	"C11": func(c *core.Ctx, r *core.Report) {
+		loggerRules(c, r, "C11.R10")
+		chainActiveRules(c, r, "C11.R8")
 		tagRules(c, r, "C11.R7", "value", "arguments")
 		propsStageRules(c, r, "C11.R8")
 		propertyStoreRules(c, r, "C11.R9")
 	},
 	// "every registered runner is invoked": the runner collection is complete
 	"C13": func(c *core.Ctx, r *core.Report) {
+		markerTypeRules(c, r, "C13.R7")
+		runEntryRules(c, r, "C13.R8")
+		globalAppendRules(c, r, "C13.R8")
+		propsStageRules(c, r, "C13.R6")
+		tagScanRules(c, r, "C13.R6")
 		collectionRules(c, r, "C13.R6", findLifecycle(c, r, "C13.R6"))
 	},
 	// "every registered closer is closed exactly once": the closer collection is complete and duplicate-free
 	"C14": func(c *core.Ctx, r *core.Report) {
+		runEntryRules(c, r, "C14.R8")
+		globalAppendRules(c, r, "C14.R8")
+		propsStageRules(c, r, "C14.R7")
+		tagScanRules(c, r, "C14.R7")
 		collectionRules(c, r, "C14.R7", findLifecycle(c, r, "C14.R7"))
 	},
 	// "the others in the order they were added": the ordering helper keeps unordered participants in place;
 	// what was merged or set last is what lookups see
 	"C15": func(c *core.Ctx, r *core.Report) {
+		optionRules(c, r, "C15.R3")
 		sorterRules(c, r, "C15.R9")
 		binderRules(c, r, "C15.R10")
 	},
 	// "replaced by the configured value when one is present": lookups see the configuration as it is now
-	"C16": func(c *core.Ctx, r *core.Report) { binderRules(c, r, "C16.R8") },
+	"C16": func(c *core.Ctx, r *core.Report) {
+		textStageRules(c, r, "C16.R4", "quote", "expr")
+		// prop:"K" is the documented alias of value:"${K}", nested placeholders in K included
+		hs := shorthandHandlers(c)
+		r.Floor("C16.R10", "prop shorthand handlers", len(hs), 1)
+		for _, h := range hs {
+			srs, _, und := shorthandTable(c, h)
+			if und != "" {
+				r.Undecided("C16.R10", "shorthand-table@"+core.FnName(h), c.FnPos(h), "abstract interpretation left the model: "+und)
+				continue
+			}
+			srs.report(c, r, h, func(string) string { return "C16.R10" }, "shorthand-table@"+core.FnName(h), shorthandRows)
+		}
+		binderRules(c, r, "C16.R8")
+		chainActiveRules(c, r, "C16.R9")
+		propsStageRules(c, r, "C16.R9")
+	},
 	// "the field receives the expression's result": binding writes a fresh value
 	"C18": func(c *core.Ctx, r *core.Report) {
+		textStageRules(c, r, "C18.R2", "expr")
+		processorOrderRules(c, r, "C18.R1")
+		propsStageRules(c, r, "C18.R7")
+		chainActiveRules(c, r, "C18.R7")
+		tagRules(c, r, "C18.R8", "arguments")
+		presenceRules(c, r, "C18.R9")
 		setValueRules(c, r, "C18.R5")
 		validatorConfigRules(c, r, "C18.R6")
 	},
 	// the scanner hands the tag text to the parser unchanged
 	"C19": func(c *core.Ctx, r *core.Report) {
+		// "only an explicit required=false makes a point optional": what the stages do with the answer
+		if run := c.DeclaredMethod(c.Named("app", "App"), "Run"); run != nil {
+			requiredDecisionRules(c, r, "C19.R8", reachableInScope(c, run))
+		}
+		furtherRules(c, r, "C19.R8", "required-error", "optional-cleared")
 		trs, _, tfn, tund := tagScanTable(c)
 		if tund != "" {
 			r.Undecided("C19.R7", "tag-scan-table", "", "abstract interpretation left the model: "+tund)
 			return
 		}
 		trs.report(c, r, tfn, func(string) string { return "C19.R7" }, "tag-scan-table@"+core.FnName(tfn), tagScanRows)
+	},
+	"C01": func(c *core.Ctx, r *core.Report) {
+		lookupRules(c, r, "C01.R8")
+		// "every lookup of that component by name": one definition per name, found under that name only
+		definitionRegistryTables(c, r, "", "C01.R10")
+	},
+	"C06": func(c *core.Ctx, r *core.Report) {
+		// completeness: every processor that collects candidates runs for every holder, and every component has a definition
+		chainActiveRules(c, r, "C06.R8")
+		propsStageRules(c, r, "C06.R8")
+		tagScanRules(c, r, "C06.R9")
+		fieldScanRules(c, r, "C06.R9")
+	},
+	"C12": func(c *core.Ctx, r *core.Report) {
+		markerTypeRules(c, r, "C12.R7")
+		// "appears exactly once": one registration per component, no candidate lost or doubled on the way to the list
+		registerRules(c, r, "C12.R6")
+		narrowRules(c, r, "C12.R6", "slice-exact", "no-panic")
+	},
+	"C17": func(c *core.Ctx, r *core.Report) {
+		// the three binding paths read one configuration and see every tagged field
+		binderRules(c, r, "C17.R8")
+		fieldScanRules(c, r, "C17.R9")
+		chainActiveRules(c, r, "C17.R9")
+		propsStageRules(c, r, "C17.R9")
+	},
+	"C20": func(c *core.Ctx, r *core.Report) {
+		copyLockRules(c, r, "C20.R9")
+		globalAppendRules(c, r, "C20.R8")
 	},
 }
